@@ -47,7 +47,8 @@ fn chunks(r: &mut Rng, b: &[u8], allow_ext: bool) -> (Vec<u8>, usize, bool) {
     let mut out = vec![];
     let (mut i, mut n, mut used) = (0usize, 0usize, false);
     while i < b.len() {
-        let len = (1 + r.below(match r.below(3) { 0 => 3, 1 => 20, _ => 400 })) as usize;
+        let cap = match r.below(3) { 0 => 3, 1 => 20, _ => 400 };
+        let len = (1 + r.below(cap)) as usize;
         let len = len.min(b.len() - i);
         out.extend(hex(r, len as u64));
         if allow_ext && r.chance(1, 4) { out.extend(ext(r)); used = true; }
@@ -87,11 +88,11 @@ fn bad_raw(r: &mut Rng) -> (Vec<u8>, &'static str) {
     match class {
         "unterminated" => {
             // a size line that is never terminated by CRLF (lone CR / lone LF / nothing)
-            raw.extend(hex(r, 1 + r.below(20)));
+            let v = 1 + r.below(20); raw.extend(hex(r, v));
             raw.extend(*r.pick(&[&b""[..], b"\r", b"\n", b"\n\r", b"\rabc"]));
         }
         "nonhex" => {
-            let mut l = hex(r, 1 + r.below(300));
+            let v = 1 + r.below(300); let mut l = hex(r, v);
             let badb = *r.pick(&[b'g', b'x', b'-', b'.', b'G', b'_', b'"', b'=', b'z', b'/', b':', b'@', b'`']);
             let at = r.below(l.len() as u64 + 1) as usize;
             l.insert(at, badb);
@@ -172,7 +173,7 @@ fn sock(r: &mut Rng) -> Value {
             "unterminated" => { raw.extend(b"5"); }
             "short" => { raw.extend(b"40\r\nabc"); }
             "huge" => { raw.extend(b"ffffffffffffffff\r\nabc\r\n0\r\n\r\n"); }
-            _ => { raw.extend(b"1\r\n\"XY0\r\n\r\n"); }
+            _ => { raw.extend(b"1\r\n"); raw.push(b[cut]); raw.extend(b"XY0\r\n\r\n"); }
         }
         json!({"kind":"sock","raw":bytes_json(&raw),"body":bytes_json(&b),"ty":ty,"expect":"none","ext":false,"class":class})
     }
@@ -185,9 +186,9 @@ fn serve_once(payload: Vec<u8>) -> (String, std::thread::JoinHandle<()>) {
     let h = std::thread::spawn(move || {
         if let Ok((mut s, _)) = l.accept() {
             let _ = s.set_read_timeout(Some(std::time::Duration::from_secs(5)));
-            let mut req = vec![];
+            let mut req: Vec<u8> = vec![];
             let mut buf = [0u8; 512];
-            while !req.windows(4).any(|w| w == b"\r\n\r\n") {
+            while !req.windows(4).any(|w: &[u8]| w == b"\r\n\r\n") {
                 match s.read(&mut buf) { Ok(0) | Err(_) => break, Ok(n) => req.extend(&buf[..n]) }
             }
             let _ = s.write_all(b"HTTP/1.1 200 OK\r\nContent-Type: application/json\r\nTransfer-Encoding: chunked\r\n\r\n");
